@@ -242,4 +242,8 @@ def run(ctx: Ctx):
     with ctx.delegated("C16/"):
         ctx.rule("R16.2", "coordinate lookup: right bound - 1 in range, raise/clamp outside", 2)
         C16(ctx).check_coord_index()
+    # the vertices mapped to bins are those of the converted shape of the coordinates as given
+    from . import c03, c05
+    c05.run_conversion_subset(ctx)
+    c03.run_validation_subset(ctx)
     return EXPLANATION, ASSUMPTIONS
